@@ -18,7 +18,14 @@ import (
 	"golang.org/x/tools/go/ssa/ssautil"
 )
 
-const repoRoot = "/repo"
+// repoRoot is /repo for every registered check; GOWP_REPO lets the (long) mutant self-test run on a
+// scratch worktree of the same commit while contracts in /repo are being edited.
+var repoRoot = func() string {
+	if r := os.Getenv("GOWP_REPO"); r != "" {
+		return r
+	}
+	return "/repo"
+}()
 
 type LoadedPkg struct {
 	Pkg           *packages.Package
